@@ -23,6 +23,20 @@ def examples():
     return out
 
 
+def dirty(x, key=None, mode=0):
+    """texts of a document padded / case-mixed / punctuated; numbers, dates, urls, e-mails and the schema members untouched"""
+    if isinstance(x, dict):
+        return {k: (v if k in ("$schema", "uuid", "$regime", "$addons", "$tags") else dirty(v, k, mode)) for k, v in x.items()}
+    if isinstance(x, list):
+        return [dirty(v, key, mode) for v in x]
+    if isinstance(x, str):
+        import re as _re
+        if _re.fullmatch(r"-?\d+(\.\d+)?%?", x) or _re.fullmatch(r"\d{4}-\d\d-\d\d.*", x) or x.startswith("http") or "@" in x:
+            return x
+        return ["  " + x + "  ", x.lower() + " - " + x.upper(), x[:1] + " . " + x[1:] + "#"][mode]
+    return x
+
+
 def run_env(lines, gomaxprocs):
     env = dict(GOENV, GOMAXPROCS=str(gomaxprocs))
     p = subprocess.run([os.path.join(BIN, "vharness")], input="\n".join(lines) + "\n", stdout=subprocess.PIPE, text=True, env=env, timeout=1200)
@@ -53,6 +67,29 @@ def run(c):
         if v and isinstance(v[0], list) and v[0] and v[0][0] == b"diff":
             c.report("example %s: repeating serialise/parse/calculate changes the document at %s (round %s)" % (path, v[0][2].decode(), v[0][1]),
                      {"example": path, "result": r, "clause": "calculate -> serialise -> parse -> calculate yields byte-identical JSON"})
+    # ---- rich synthetic documents: every member of every registered type populated (harness/c14rich.go), as generated
+    # and with "dirty" texts (padding, mixed case, stray punctuation) so that the normalisers of rarely used members
+    # (telephones, e-mails, identities, addresses, inboxes, registration ...) have something to do
+    rich = os.path.join(WORK, "c14rich")
+    subprocess.run([os.path.join(BIN, "vharness"), "c14rich", rich], stdout=subprocess.PIPE, stderr=subprocess.PIPE, env=GOENV)
+    import glob as _glob
+    rl, rn = [], []
+    for f in sorted(_glob.glob(os.path.join(rich, "rich-*.json"))):
+        try:
+            d = json.load(open(f))
+        except ValueError:
+            continue
+        for mode in (None, 0, 1, 2):
+            rl.append("c04 fix " + w(json.dumps(d if mode is None else dirty(d, None, mode))))
+            rn.append((os.path.basename(f), mode))
+    for (name, mode), r in zip(rn, run_go(rl)):
+        v = parse_wire(r)
+        c.count("rich-fixpoint", 1, (name, mode))
+        if v and isinstance(v[0], list) and v[0] and v[0][0] == b"diff" and shown < 6:
+            shown += 1
+            c.report("rich document %s (text variant %s): repeating serialise/parse/calculate changes it at %s (round %s)" % (name, mode, v[0][2].decode(), v[0][1]),
+                     {"rich_document": name, "variant": mode, "result": r, "rerun": "bin/vharness c14rich work/c14rich",
+                      "clause": "calculate -> serialise -> parse -> calculate yields byte-identical JSON (normalisers are idempotent)"})
     outs = [(p, d) for p, d in exs if "/out/" in p]
     res = run_go(["c04 readonly " + w(d) for _, d in outs])
     for (path, data), r in zip(outs, res):
